@@ -60,14 +60,20 @@ def step_text(sid, outcome):
         return "step %d %s" % (sid, outcome)
     if outcome == "undefined":
         return "nodef %d thing" % sid
-    if outcome == "convert":
-        return "step %d convert zz" % sid
+    if outcome.startswith("convert"):
+        return "step %d convert %s" % (sid, CONVERT_TEXT[outcome])
     return "step %d %s" % (sid, outcome)
+
+
+# "convert": typed parameter whose converter raises ValueError; convertK/A/R: KeyError / AssertionError / RuntimeError
+CONVERT_TEXT = {"convert": "zz", "convertK": "kk", "convertA": "aa", "convertR": "rr"}
 
 
 def cell_text(outcome):
     """how an outcome is written into an examples-table cell"""
-    return "nodef" if outcome == "undefined" else "convert zz" if outcome == "convert" else outcome
+    if outcome.startswith("convert"):
+        return "convert %s" % CONVERT_TEXT[outcome]
+    return "nodef" if outcome == "undefined" else outcome
 
 
 # ----------------------------------------------------------------- walking
